@@ -49,6 +49,41 @@ def beam_mesh_replacement(ctx):
         ctx.count(6, distinct_key=("beam-mesh-replacement", timo))
 
 
+def phasefield_history_replacement(ctx):
+    """History solver of the phase-field simulation (a hidden field, so it is kept out of the generated behaviours): after
+    the mesh is replaced by a mesh with as many elements, the simulation behaves like a new one on that mesh."""
+    import numpy as np
+    from EasyFEA import Models
+
+    class AdH(lc.PhaseFieldAdapter):
+        def make_model(self, parv):
+            mat = Models.Elastic.Isotropic(2, E=10.0, v=0.25, planeStress=False, thickness=0.5)
+            PF = Models.PhaseField
+            return PF(mat, PF.SplitType.Miehe, PF.ReguType.AT2, Gc=5.0, l0=0.5, solver=PF.SolverType.History)
+
+    ad = AdH()
+    w = lc.World(ad)
+    sim = w.sims["s1"]
+    try:
+        with lc.quiet():
+            sim.Solve()
+            sim.Save_Iter()
+            sim.mesh = w.meshes["A"].copy()
+        w.apply_bc_op(sim, ("set", 0))
+        with lc.quiet():
+            fresh = ad.make_sim(w.meshes["A"].copy(), ad.make_model(0))
+        w.apply_bc_op(fresh, ("set", 0))
+        with lc.quiet():
+            sim.Solve()
+            fresh.Solve()
+        for nm, a, b in (("u", sim.displacement, fresh.displacement), ("d", sim.damage, fresh.damage)):
+            if lc.relerr(a, b) > 1e-7:
+                ctx.violation(f"PhaseField-History/stale/solution-{nm}/SetMesh", f"PhaseField (History solver): {nm} after Solve -> Save_Iter -> simu.mesh = copy -> Solve differs from a new simulation on that mesh (rel err {lc.relerr(a, b):.3g})", {"adapter": "PhaseField-History"})
+    finally:
+        w.close()
+    ctx.count(2, distinct_key=("phasefield-history-replacement",))
+
+
 def run(ctx):
     if ctx.replay:
         import json
@@ -75,10 +110,11 @@ def run(ctx):
     for name in ["Elastic", "Thermal", "MatSimu"]:
         lc.simulate_and_replay(ctx, name, ["SetMesh", "SaveIter", "SetIter", "Solve", "GetKCMF", "Translate", "SetParam"], num // 2, 12, ctx.seed + 4, label="restore")
     lc.simulate_and_replay(ctx, "Elastic", ["SetParam", "SetRho", "Translate", "SetCoord", "SetMesh", "GetKCMF", "Solve", "SetBc"], num // 2, 10, ctx.seed + 3, sims=("s1", "s2"), label="shared")
-    for name in ["Beam", "Elastic3D", "WeakForms", "HyperElastic"]:
-        lc.simulate_and_replay(ctx, name, lc.ALL_ACTS, num // 2, 14, ctx.seed + 5, label="all")
-        lc.simulate_and_replay(ctx, name, lc.CACHE_ACTS, num // 2, 12, ctx.seed + 6, label="cache")
+    for name in ["Beam", "Elastic3D", "WeakForms", "HyperElastic", "PhaseField"]:
+        lc.simulate_and_replay(ctx, name, lc.ALL_ACTS, num // 3, 14, ctx.seed + 5, label="all")
+        lc.simulate_and_replay(ctx, name, lc.CACHE_ACTS, num // 3, 12, ctx.seed + 6, label="cache")
     beam_mesh_replacement(ctx)
+    phasefield_history_replacement(ctx)
     # direction B: the repository's own tests as drivers, judged by Trace_Lifecycle.tla
     from harness import repo_trace
 
